@@ -347,13 +347,30 @@ fn gen_sauce(rng: &mut Rng) -> SauceD {
             1 => max,
             _ => rng.usize(max + 1),
         };
-        let mut v: Vec<u8> = (0..n)
-            .map(|_| match rng.usize(6) {
-                0 => b' ',
-                1 => 0x80 + rng.usize(0x7F) as u8,
-                _ => 0x21 + rng.usize(0x5E) as u8,
-            })
-            .collect();
+        // alphabets: mixed CP437 (blanks, high half, printable ASCII, now and then a glyph of the control range 0x01..0x1F),
+        // ASCII plus control-range glyphs only (every byte is also valid UTF-8), and high bytes that happen to form valid
+        // UTF-8 sequences (CP437 text must not be taken for UTF-8)
+        let alphabet = rng.usize(8);
+        let mut v: Vec<u8> = Vec::with_capacity(n);
+        while v.len() < n {
+            match alphabet {
+                0 => v.push(if rng.chance(1, 3) { 0x01 + rng.usize(0x1F) as u8 } else { 0x21 + rng.usize(0x5E) as u8 }),
+                1 => {
+                    let seq: &[u8] = *rng.pick(&[&[0xC3u8, 0xA9][..], &[0xE2, 0x99, 0xAA][..], &[0xC2, 0xA0][..], &[0x41][..], &[0xF0, 0x9F, 0x98, 0x80][..]]);
+                    if v.len() + seq.len() <= n {
+                        v.extend_from_slice(seq);
+                    } else {
+                        v.push(b'x');
+                    }
+                }
+                _ => v.push(match rng.usize(12) {
+                    0 | 1 => b' ',
+                    2 | 3 => 0x80 + rng.usize(0x7F) as u8,
+                    4 => 0x01 + rng.usize(0x1F) as u8,
+                    _ => 0x21 + rng.usize(0x5E) as u8,
+                }),
+            }
+        }
         // trailing blanks / NULs are padding by definition: generate them, compare stripped
         if rng.chance(1, 4) && !v.is_empty() {
             let k = rng.usize(v.len().min(4)) + 1;
@@ -504,7 +521,7 @@ impl Prop for C11 {
         "C11"
     }
     fn rule(&self) -> &'static str {
-        "for each of the ten writers that append SAUCE (ans asc avt pcb bin xb tnd adf idf icy): (meta) a document with generated title/author/group of every length 0..=35/20/20 over CP437 incl. blanks, 0..=255 comment lines, flag combinations, widths 1..=1000 (format limits) and font-0 names of 0..=40 characters (built-in pages and custom fonts) is saved with SAUCE; a reference SAUCE reader written from the Revision-5 layout parses the trailer (writer side) and Buffer::get_sauce() after loading is compared with the per-variant projection (reader side: texts, comments, width, ice flag, spacing/aspect flags, font name); (cut) content vs content+trailer with the loader's default width/ice/font: SauceData::extract must report sauce_header_len == trailer length and both loads (for ans/asc also under an unclaimed extension, the ANSI fallback) must give the same size and cells; content variants ending in SAUCE00 / COMNT look-alikes or in one or more 0x1A bytes of their own (text and binary formats), empty, 1/127/128/129/133/192/193 bytes; (foreign) the same with a trailer written by the harness's reference writer (NUL padding). distinct_nontrivial = distinct (writer, mode, title/author length, comment count, width, content class) fingerprints"
+        "for each of the ten writers that append SAUCE (ans asc avt pcb bin xb tnd adf idf icy): (meta) a document with generated title/author/group of every length 0..=35/20/20 over CP437 incl. blanks, control-range glyphs (0x01..0x1F) and byte strings that are also valid UTF-8, 0..=255 comment lines, flag combinations, widths 1..=1000 (format limits) and font-0 names of 0..=40 characters (built-in pages and custom fonts) is saved with SAUCE; a reference SAUCE reader written from the Revision-5 layout parses the trailer (writer side) and Buffer::get_sauce() after loading is compared with the per-variant projection (reader side: texts, comments, width, ice flag, spacing/aspect flags, font name); (cut) content vs content+trailer with the loader's default width/ice/font: SauceData::extract must report sauce_header_len == trailer length and both loads (for ans/asc also under an unclaimed extension, the ANSI fallback) must give the same size and cells; content variants ending in SAUCE00 / COMNT look-alikes or in one or more 0x1A bytes of their own (text and binary formats), empty, 1/127/128/129/133/192/193 bytes; (foreign) the same with a trailer written by the harness's reference writer (NUL padding). distinct_nontrivial = distinct (writer, mode, title/author length, comment count, width, content class) fingerprints"
     }
     fn meta(&self, ctx: &Ctx) -> Value {
         json!({"floor_evaluations": 2000, "floor_distinct": ctx.tier.pick(1500u64, 20000u64),
